@@ -50,6 +50,15 @@ Theorem C07_construct : forall (R : rcfType) fuel (p : UPoly.poly) (lo hi : dyad
 Proof. exact construct_sound. Qed.
 Print Assumptions C07_construct.
 
+(* ... and ESTABLISHES the invariant read by floor / ceiling / is_integer: after `while (size >= 0) refine` the width is
+   below 1/2, and the refinement with ceil(a) leaves the interval between two consecutive integers (FULL) *)
+Theorem C07_construct_integer_free : forall (R : rcfType) fuel (p : UPoly.poly) (lo hi : dyadic) (y : anum) (v : R),
+  roots (polyR p) (dyR lo) (dyR hi) = [:: v] ->
+  Z.ltb (an_psgn_dy p lo * an_psgn_dy p hi) 0 ->
+  an_construct fuel p lo hi = Some y -> int_free y.
+Proof. exact construct_int_free. Qed.
+Print Assumptions C07_construct_integer_free.
+
 (* ---- 3. sign and comparison with integers, dyadic rationals, rationals (FULL): when the call returns, its answer is
         the sign of (value - scalar) and the refined operand denotes the same value *)
 Theorem C07_cmp_integer : forall (R : rcfType) fuel (x : anum) (v : R) (z : Z) (c : Z) (x' : anum),
@@ -106,6 +115,11 @@ Theorem C07_neg : forall (R : rcfType) fuel (x y : anum) (v : R),
 Proof. exact neg_sound. Qed.
 Print Assumptions C07_neg.
 
+Theorem C07_neg_integer_free : forall (R : rcfType) fuel (x y : anum) (v : R),
+  Den x v -> an_neg fuel x = Some y -> int_free y.
+Proof. exact neg_int_free. Qed.
+Print Assumptions C07_neg_integer_free.
+
 (* ---- 6. arithmetic: the selection argument (FULL) and the selection loop of lp_algebraic_number_op (COND) *)
 (* a root of r known to lie in an interval where r has exactly one root IS that root (what RefAlg.rn_select and
    libpoly's filter loop both rely on) *)
@@ -133,6 +147,17 @@ Theorem C07_op_select_cond : forall (R : rcfType) (op : R -> R -> R) (iop : an_i
 Proof. exact op_loop_sound. Qed.
 Print Assumptions C07_op_select_cond.
 
+(* the loop of lp_algebraic_number_positive_root (COND): premise root_encloses (the over-approximated root interval
+   contains the non-negative n-th root of every point of the operand's interval: C15 on top of C07_root_approx_floor /
+   _ceil) and the isolated roots of f(x^n) contain a number denoting the root *)
+Theorem C07_root_select_cond : forall (R : rcfType) (n : N),
+  (forall I (prec : N) (u w : R), iv_mem I u -> 0 <= w -> w ^+ (N.to_nat n) = u -> iv_mem (iv_root_overapprox I n prec) w) ->
+  forall fuel (prec : N) (a : anum) (rts : seq anum) (va v : R) (r a' : anum) (b' : option anum) (r0 : anum),
+  Den a va -> 0 <= v -> v ^+ (N.to_nat n) = va -> List.In r0 rts -> Den r0 v ->
+  an_root_loop fuel n prec a rts = OpOk r a' b' -> Den r v /\ Den a' va.
+Proof. exact root_loop_sound. Qed.
+Print Assumptions C07_root_select_cond.
+
 (* the annihilating polynomial of a sum / difference, for MathComp's resultant (polyXY): FULL about the mathematical
    resultant; that libpoly's subresultant algorithm computes it is property C04's *)
 Theorem C07_annihilates_add : forall (R : rcfType) (p q : {poly R}) (x y : R),
@@ -153,10 +178,23 @@ Definition annihilates_mul_statement : Prop := forall (R : rcfType) (p q : {poly
   exists r : {poly R}, r != 0 /\ root r (x * y) /\
     (forall z, root r z -> exists x' y', [/\ root p x', root q y' & z = x' * y']).
 
-(* ---- 7. comparison of two numbers (PARTIAL): the equality branch.  When the two intervals coincide and the gcd
-        (premise: it vanishes only at common roots) changes sign over them, the numbers ARE equal - whatever polynomials
-        represent them - and both reduced representations still denote that number. *)
-Theorem C07_cmp_equal_branch_partial : forall (R : rcfType) (x y : anum) (p q g : UPoly.poly) (v w : R),
+(* ---- 7. comparison of two numbers (COND, one premise  gcd_divides : the polynomial returned by lp_upolynomial_gcd
+        vanishes only at common roots of its arguments [C03]).  When lp_algebraic_number_cmp returns, the answer has
+        the sign of v - w: EQUAL NUMBERS COMPARE EQUAL whatever polynomials and intervals represent them, different
+        numbers never do; and both operands - refined through const pointers, possibly with their polynomials
+        replaced by the gcd - keep their values.  Covers the refinement with the ends of the intersection (after which
+        the intervals are separated or equal), the gcd test, the bisection race and the open/closed tie-breaks. *)
+Theorem C07_cmp_cond : forall (R : rcfType) fuel (gcdf : UPoly.poly -> UPoly.poly -> UPoly.poly)
+  (x y : anum) (c : Z) (x' y' : anum) (v w : R),
+  (forall p q (z : R), root (polyR (gcdf p q)) z -> root (polyR p) z /\ root (polyR q) z) ->
+  Den x v -> Den y w -> an_cmp fuel gcdf x y = Some (c, x', y') ->
+  [/\ ZR (Z.sgn c) = sgr (v - w), Den x' v & Den y' w].
+Proof. exact cmp_sound. Qed.
+Print Assumptions C07_cmp_cond.
+
+(* the equality branch on its own: equal intervals + sign change of the gcd => the numbers ARE equal and both reduced
+   representations denote them *)
+Theorem C07_cmp_equal_branch_cond : forall (R : rcfType) (x y : anum) (p q g : UPoly.poly) (v w : R),
   an_f x = Some p -> an_f y = Some q -> Den x v -> Den y w ->
   dyR (an_a x) = dyR (an_a y) :> R -> dyR (an_b x) = dyR (an_b y) :> R ->
   (forall z : R, root (polyR g) z -> root (polyR p) z /\ root (polyR q) z) ->
@@ -165,24 +203,14 @@ Theorem C07_cmp_equal_branch_partial : forall (R : rcfType) (x y : anum) (p q g 
       Den (an_reduce_polynomial x g (an_psgn_dy g (an_a x)) (an_psgn_dy g (an_b x))) v &
       Den (an_reduce_polynomial y g (an_psgn_dy g (an_a x)) (an_psgn_dy g (an_b x))) w].
 Proof. exact cmp_gcd_branch_sound. Qed.
-Print Assumptions C07_cmp_equal_branch_partial.
+Print Assumptions C07_cmp_equal_branch_cond.
 
-(* whatever branch lp_algebraic_number_cmp takes (refinement with the ends of the intersection, reduction of both
-   polynomials to the gcd, bisection race), both operands - mutated through const pointers - keep their values
-   (COND: premise  gcd_divides: the polynomial returned by lp_upolynomial_gcd vanishes only at common roots [C03]) *)
-Theorem C07_cmp_keeps_values_cond : forall (R : rcfType) fuel (gcdf : UPoly.poly -> UPoly.poly -> UPoly.poly)
-  (x y : anum) (c : Z) (x' y' : anum) (v w : R),
-  (forall p q (z : R), root (polyR (gcdf p q)) z -> root (polyR p) z /\ root (polyR q) z) ->
-  Den x v -> Den y w -> an_cmp fuel gcdf x y = Some (c, x', y') -> Den x' v /\ Den y' w.
-Proof. exact cmp_keeps_values. Qed.
-Print Assumptions C07_cmp_keeps_values_cond.
-
-(* the intended statement (not proved: needs the disjoint-or-equal analysis after the four refine_with_point calls) *)
-Definition C07_cmp_full_statement : Prop := forall (R : rcfType) fuel (gcdf : UPoly.poly -> UPoly.poly -> UPoly.poly)
-  (x y x' y' : anum) (v w : R) (c : Z),
-  (forall p q (z : R), root (polyR (gcdf p q)) z <-> root (polyR p) z /\ root (polyR q) z) ->
-  Den x v -> Den y w -> an_cmp fuel gcdf x y = Some (c, x', y') ->
-  [/\ ZR (Z.sgn c) = sgr (v - w), Den x' v & Den y' w].
+(* the end game of cmp: once the intervals are separated, comparing the lower ends (with the open/closed tie-breaks)
+   gives the sign of v - w  (FULL) *)
+Theorem C07_cmp_final : forall (R : rcfType) (x y : anum) (v w : R),
+  Den x v -> Den y w -> Sep R x y -> ZR (Z.sgn (cmp_final x y)) = sgr (v - w).
+Proof. exact cmp_final_sound. Qed.
+Print Assumptions C07_cmp_final.
 
 (* ---- 8. the REPAIRED dyadic_rational_root_approx (Scalar.v; History.v keeps the refuted pre-repair version) brackets
         the n-th root, for every a > 0, n >= 1 and precision (FULL; stdlib Z arithmetic).  The result is the
@@ -219,4 +247,9 @@ Example C07_example_neg : exists y, an_neg 10 an_half_example = Some y /\ an_f y
 Proof. eexists; split; reflexivity. Qed.
 Example C07_example_root_approx :   (* floor of cbrt(3/2) at precision 5 is 1; the pre-repair code gave 5/4 > cbrt(3/2) *)
   fst (dy_root_approx (mkDy 3%ZZ (N.of_nat 1)) (N.of_nat 3) (N.of_nat 5) false) = mkDy 1%ZZ (N.of_nat 0).
+Proof. reflexivity. Qed.
+(* equal numbers in different representations compare equal: (2x - 1, ]0,1[) against the point 1/2 *)
+Example C07_example_cmp_equal :
+  an_cmp 10 (fun p q => ppp (pgcd p q)) an_half_example (an_point (mkDy 1%ZZ (N.of_nat 1)))
+  = Some (Z0, an_point (mkDy 1%ZZ (N.of_nat 1)), an_point (mkDy 1%ZZ (N.of_nat 1))).
 Proof. reflexivity. Qed.
